@@ -184,9 +184,9 @@ impl Check for Registries {
     }
     fn runs(&self, tier: Tier) -> u64 {
         if tier == Tier::Quick {
-            600
+            800
         } else {
-            40_000
+            40000
         }
     }
     fn components(&self) -> serde_json::Value {
